@@ -880,14 +880,7 @@ def r027(an, rep):
 
 
 # ----------------------------------------------------------------------------- R02.F
-def r02f(an, rep, rule="R02.F"):
-    """The decoder's instruction function (code units + tables -> blocks, unreferenced entries) folded over witness code-unit sequences; the
-    expectation is a transcription of what CPython's disassembler reports: opcode names in order (prefixes folded), each operand resolved in the
-    table CPython indexes for the opcode's category (cell variables first, then free variables), jump targets k*arg / next offset + k*arg, and
-    a block beginning exactly at offset 0 and at every jump target."""
-    from sa.feval import BlockOutcome, Obj
-    from .c03 import package_evaluator, read_units
-    rep.rule(rule, "the decoder's instruction function folded over witness code-unit sequences gives what CPython's disassembler reports", 4)
+def _find_instruction_fn(an):
     pf = find_parser(an)
     it, _ = an.interp("from_code")
     g = None
@@ -896,10 +889,20 @@ def r02f(an, rep, rule="R02.F"):
             g = f
     if g is None or len(g.params) != 9:
         raise AnalysisError("the decoder's instruction function (code, line mapping, four tables, free variables, kind of code, parameters) was not found")
+    return g
+
+
+def _decoder_witnesses(V):
+    """(name, code units as bytes, names, varnames, freevars, cellvars, constants) for interpreter V."""
+    from .c11 import reference as _ref
+    R = _ref(V)
+    om, scale = R["opmap"], R["jump_scale"]
     E_ = "EXTENDED_ARG"
     # (name, [(opname, operand byte)], names, varnames, freevars, cellvars, constants)
     W = [
         ("one cell and two free variables", [("LOAD_CLOSURE", 0), ("LOAD_DEREF", 1), ("LOAD_DEREF", 2), ("LOAD_DEREF", 0), ("RETURN_VALUE", 0)], (), (), ("f0", "f1"), ("c",), ()),
+        # a class body that uses __class__ inside a function with a local __class__: CPython lists the name in both tables, the operand's position decides
+        ("one name that is both a cell and a free variable", [("LOAD_CLOSURE", 0), ("LOAD_DEREF", 1), ("LOAD_DEREF", 0), ("LOAD_DEREF", 2), ("RETURN_VALUE", 0)], (), (), ("__class__", "x"), ("__class__",), ()),
         ("two cells and one free variable", [("LOAD_DEREF", 2), ("LOAD_DEREF", 1), ("LOAD_DEREF", 0), ("RETURN_VALUE", 0)], (), (), ("f0",), ("c0", "c1"), ()),
         ("tables met out of order, entries never met", [("LOAD_NAME", 1), ("LOAD_CONST", 2), ("LOAD_NAME", 0), ("LOAD_CONST", 0), ("LOAD_FAST", 1), ("LOAD_NAME", 1), ("RETURN_VALUE", 0)],
          ("a", "b", "never"), ("v0", "v1"), (), (), (None, 1.5, "s")),
@@ -911,113 +914,166 @@ def r02f(an, rep, rule="R02.F"):
          [("LOAD_NAME", 0), ("POP_JUMP_IF_TRUE", ("abs", 6)), ("JUMP_ABSOLUTE", ("abs", 4)), (E_, 0), ("LOAD_NAME", 1), ("JUMP_FORWARD", ("rel", 0)), ("RETURN_VALUE", 0)],
          ("a", "b"), (), (), (), ()),
     ]
-    for V in VERSIONS:
-        bad = []
-        for wname, units, names, varnames, freevars, cellvars, consts in W:
-            ev, R = package_evaluator(an, g.module, V)
-            om, scale = R["opmap"], R["jump_scale"]
-            if any(op not in om for op, _a in units):
-                continue
-            # the jump operands of the last witness: POP_JUMP_IF_FALSE -> offset 6 (BUILD_TUPLE), JUMP_FORWARD -> offset 12 (POP_TOP), JUMP_ABSOLUTE (behind a zero prefix) -> offset 0
-            fixed = []
-            for k, (op, a) in enumerate(units):
-                if a is None:
-                    a = {"POP_JUMP_IF_FALSE": 6 // scale, "JUMP_FORWARD": (12 - (2 * k + 2)) // scale, "JUMP_ABSOLUTE": 0}[op]
-                elif isinstance(a, tuple):
-                    a = a[1] // scale
-                fixed.append((op, a))
-            code = bytes(x for op, a in fixed for x in (om[op], a))
-            insns = read_units(code, R)
-            targets = {0}
-            exp = []
-            for first, opoff, op, arg, n in insns:
-                if op in R["hasjabs"]:
-                    targets.add(scale * arg)
-                elif op in R["hasjrel"]:
-                    targets.add(opoff + 2 + scale * arg)
-            order = sorted(targets)
-            ranks = {"n": {}, "v": {}, "c": {}, "k": {}}
+    WV = []
+    for wname, units, names, varnames, freevars, cellvars, consts in W:
+        if any(op not in om for op, _a in units):
+            continue
+        # the jump operands of the last witness: POP_JUMP_IF_FALSE -> offset 6 (BUILD_TUPLE), JUMP_FORWARD -> offset 12 (POP_TOP), JUMP_ABSOLUTE (behind a zero prefix) -> offset 0
+        fixed = []
+        for k, (op, a) in enumerate(units):
+            if a is None:
+                a = {"POP_JUMP_IF_FALSE": 6 // scale, "JUMP_FORWARD": (12 - (2 * k + 2)) // scale, "JUMP_ABSOLUTE": 0}[op]
+            elif isinstance(a, tuple):
+                a = a[1] // scale
+            fixed.append((op, a))
+        code = bytes(x for op, a in fixed for x in (om[op], a))
+        WV.append((wname, code, names, varnames, freevars, cellvars, consts))
+    return WV
 
-            def pin(kind, i):
-                r = ranks[kind].setdefault(i, len(ranks[kind]))
-                return i if r != i else None
-            opname = {v: k for k, v in om.items()}
-            for first, opoff, op, arg, n in insns:
-                if op in R["hasjabs"]:
-                    a = ("Jump", {"target": order.index(scale * arg), "relative": False})
-                elif op in R["hasjrel"]:
-                    a = ("Jump", {"target": order.index(opoff + 2 + scale * arg), "relative": True})
-                elif op in R["hasname"]:
-                    a = ("Name", {"name": names[arg], "_index_override": pin("n", arg)})
-                elif op in R["haslocal"]:
-                    a = ("Varname", {"varname": varnames[arg], "_index_override": pin("v", arg)})
-                elif op in R["hasfree"]:
-                    a = ("Cellvar", {"cellvar": cellvars[arg], "_index_override": pin("c", arg)}) if arg < len(cellvars) else ("Freevar", {"freevar": freevars[arg - len(cellvars)]})
-                elif op in R["hasconst"]:
-                    a = ("Constant", {"constant": consts[arg], "_index_override": pin("k", arg)})
-                elif op < R["HAVE_ARGUMENT"]:
-                    a = ("NoArg", {"_arg": arg})
-                else:
-                    a = arg
-                exp.append((first, opname[op], a))
-            line_of = {first: 10 + i for i, (first, *_r) in enumerate(insns)}
-            lines = {}
-            for first, opoff, *_r in insns:
-                for o in range(first, opoff + 2, 2):
-                    lines[o] = line_of[first]
-            try:
-                mp = ev.lib["LineMapping"](dict(lines), {})
-                res = ev.call_method(g.node, code, mp, tuple(names), tuple(varnames), tuple(freevars), tuple(cellvars), tuple(consts), None, ev.lib["Args"]())
-            except BlockOutcome as o:
-                bad.append(f"{wname}: the decoder stops at `{norm_src(o.node)[:60]}`")
-                continue
-            except (IndexError, KeyError) as ex:
-                bad.append(f"{wname}: the decoder raises {type(ex).__name__}: {str(ex)[:50]}")
-                continue
-            except AnalysisError:
-                raise
-            except Exception as ex:  # noqa: BLE001 - a gap of the evaluator, never a verdict
-                raise AnalysisError(f"{g.qual}: not evaluable on the witness code units '{wname}' ({type(ex).__name__}: {ex})")
-            if not (isinstance(res, tuple) and len(res) == 2 and all(isinstance(b, tuple) for b in res[0])):
-                raise AnalysisError(f"{g.qual}: the result on the witness code units is not (blocks, unreferenced entries)")
-            blocks, extra = res
-            flat = [i for b in blocks for i in b]
-            why = None
-            if len(flat) != len(exp):
-                why = f"{len(flat)} instructions, CPython's disassembler reports {len(exp)}"
+
+def _decode_bad(an, g, V, WV):
+    """The instruction function folded over the witnesses WV under interpreter V: the witnesses that are not decoded as the disassembler reads them."""
+    from sa.feval import BlockOutcome, Obj
+    from .c03 import package_evaluator, read_units
+    bad = []
+    for wname, code, names, varnames, freevars, cellvars, consts in WV:
+        ev, R = package_evaluator(an, g.module, V)
+        om, scale = R["opmap"], R["jump_scale"]
+        insns = read_units(code, R)
+        targets = {0}
+        exp = []
+        for first, opoff, op, arg, n in insns:
+            if op in R["hasjabs"]:
+                targets.add(scale * arg)
+            elif op in R["hasjrel"]:
+                targets.add(opoff + 2 + scale * arg)
+        order = sorted(targets)
+        ranks = {"n": {}, "v": {}, "c": {}, "k": {}}
+
+        def pin(kind, i):
+            r = ranks[kind].setdefault(i, len(ranks[kind]))
+            return i if r != i else None
+        opname = {v: k for k, v in om.items()}
+        for first, opoff, op, arg, n in insns:
+            if op in R["hasjabs"]:
+                a = ("Jump", {"target": order.index(scale * arg), "relative": False})
+            elif op in R["hasjrel"]:
+                a = ("Jump", {"target": order.index(opoff + 2 + scale * arg), "relative": True})
+            elif op in R["hasname"]:
+                a = ("Name", {"name": names[arg], "_index_override": pin("n", arg)})
+            elif op in R["haslocal"]:
+                a = ("Varname", {"varname": varnames[arg], "_index_override": pin("v", arg)})
+            elif op in R["hasfree"]:
+                a = ("Cellvar", {"cellvar": cellvars[arg], "_index_override": pin("c", arg)}) if arg < len(cellvars) else ("Freevar", {"freevar": freevars[arg - len(cellvars)]})
+            elif op in R["hasconst"]:
+                a = ("Constant", {"constant": consts[arg], "_index_override": pin("k", arg)})
+            elif op < R["HAVE_ARGUMENT"]:
+                a = ("NoArg", {"_arg": arg})
             else:
-                # where the blocks begin
-                begins, k = [], 0
-                for b in blocks:
-                    begins.append(exp[k][0] if k < len(exp) else None)
-                    k += len(b)
-                if begins != order or any(len(b) == 0 for b in blocks):
-                    why = f"blocks begin at offsets {begins}, the jump targets (and 0) are {order}"
-                for ins, (first, name, a) in zip(flat, exp):
-                    if why:
-                        break
-                    got = ins.get("arg")
-                    if ins.get("name") != name:
-                        why = f"instruction at {first} is {ins.get('name')!r}, CPython reports {name!r}"
-                    elif ins.get("line_number") != line_of[first]:
-                        why = f"{name} at {first} gets line {ins.get('line_number')!r}; the table gives its first code unit line {line_of[first]}"
-                    elif isinstance(a, tuple):
-                        if not isinstance(got, Obj) or got.get("__cls__") != a[0] or any(got.get(k) != v or type(got.get(k)) is not type(v) for k, v in a[1].items()):
-                            shown = {k: v for k, v in got.items() if k != "__cls__"} if isinstance(got, Obj) else got
-                            why = f"{name} {a[1]} at {first} is decoded as {got.get('__cls__') if isinstance(got, Obj) else type(got).__name__} {shown}"
-                    elif got != a or isinstance(got, Obj):
-                        why = f"{name} {a} at {first} is decoded with operand {got!r}"
-                if not why:
-                    never = {"Name": [n for i, n in enumerate(names) if i not in ranks["n"]], "Varname": [n for i, n in enumerate(varnames) if i not in ranks["v"]],
-                             "Cellvar": [n for i, n in enumerate(cellvars) if i not in ranks["c"]], "Constant": [n for i, n in enumerate(consts) if i not in ranks["k"]]}
-                    gotx = {c: [] for c in never}
-                    for x in extra:
-                        if isinstance(x, Obj) and x.get("__cls__") in gotx:
-                            gotx[x["__cls__"]].append(x.get({"Name": "name", "Varname": "varname", "Cellvar": "cellvar", "Constant": "constant"}[x["__cls__"]]))
-                    if gotx != never:
-                        why = f"entries no instruction uses are listed as {gotx}, the tables leave {never}"
-            if why:
-                bad.append(f"{wname}: {why}")
+                a = arg
+            exp.append((first, opname[op], a))
+        line_of = {first: 10 + i for i, (first, *_r) in enumerate(insns)}
+        lines = {}
+        for first, opoff, *_r in insns:
+            for o in range(first, opoff + 2, 2):
+                lines[o] = line_of[first]
+        try:
+            mp = ev.lib["LineMapping"](dict(lines), {})
+            res = ev.call_method(g.node, code, mp, tuple(names), tuple(varnames), tuple(freevars), tuple(cellvars), tuple(consts), None, ev.lib["Args"]())
+        except BlockOutcome as o:
+            bad.append(f"{wname}: the decoder stops at `{norm_src(o.node)[:60]}`")
+            continue
+        except (IndexError, KeyError) as ex:
+            bad.append(f"{wname}: the decoder raises {type(ex).__name__}: {str(ex)[:50]}")
+            continue
+        except AnalysisError:
+            raise
+        except Exception as ex:  # noqa: BLE001 - a gap of the evaluator, never a verdict
+            raise AnalysisError(f"{g.qual}: not evaluable on the witness code units '{wname}' ({type(ex).__name__}: {ex})")
+        if not (isinstance(res, tuple) and len(res) == 2 and all(isinstance(b, tuple) for b in res[0])):
+            raise AnalysisError(f"{g.qual}: the result on the witness code units is not (blocks, unreferenced entries)")
+        blocks, extra = res
+        flat = [i for b in blocks for i in b]
+        why = None
+        if len(flat) != len(exp):
+            why = f"{len(flat)} instructions, CPython's disassembler reports {len(exp)}"
+        else:
+            # where the blocks begin
+            begins, k = [], 0
+            for b in blocks:
+                begins.append(exp[k][0] if k < len(exp) else None)
+                k += len(b)
+            if begins != order or any(len(b) == 0 for b in blocks):
+                why = f"blocks begin at offsets {begins}, the jump targets (and 0) are {order}"
+            for ins, (first, name, a) in zip(flat, exp):
+                if why:
+                    break
+                got = ins.get("arg")
+                if ins.get("name") != name:
+                    why = f"instruction at {first} is {ins.get('name')!r}, CPython reports {name!r}"
+                elif ins.get("line_number") != line_of[first]:
+                    why = f"{name} at {first} gets line {ins.get('line_number')!r}; the table gives its first code unit line {line_of[first]}"
+                elif isinstance(a, tuple):
+                    if not isinstance(got, Obj) or got.get("__cls__") != a[0] or any(got.get(k) != v or type(got.get(k)) is not type(v) for k, v in a[1].items()):
+                        shown = {k: v for k, v in got.items() if k != "__cls__"} if isinstance(got, Obj) else got
+                        why = f"{name} {a[1]} at {first} is decoded as {got.get('__cls__') if isinstance(got, Obj) else type(got).__name__} {shown}"
+                elif got != a or isinstance(got, Obj):
+                    why = f"{name} {a} at {first} is decoded with operand {got!r}"
+            if not why:
+                never = {"Name": [n for i, n in enumerate(names) if i not in ranks["n"]], "Varname": [n for i, n in enumerate(varnames) if i not in ranks["v"]],
+                         "Cellvar": [n for i, n in enumerate(cellvars) if i not in ranks["c"]], "Constant": [n for i, n in enumerate(consts) if i not in ranks["k"]]}
+                gotx = {c: [] for c in never}
+                for x in extra:
+                    if isinstance(x, Obj) and x.get("__cls__") in gotx:
+                        gotx[x["__cls__"]].append(x.get({"Name": "name", "Varname": "varname", "Cellvar": "cellvar", "Constant": "constant"}[x["__cls__"]]))
+                if gotx != never:
+                    why = f"entries no instruction uses are listed as {gotx}, the tables leave {never}"
+        if why:
+            bad.append(f"{wname}: {why}")
+    return bad
+
+
+def _decode_chunk(args):
+    repo, V, WV = args
+    from sa import model
+    model.REPO = repo
+    an = Analysis(repo)
+    try:
+        return _decode_bad(an, _find_instruction_fn(an), V, WV), None
+    except AnalysisError as ex:
+        return [], str(ex)
+
+
+def r02f(an, rep, rule="R02.F"):
+    """The decoder's instruction function (code units + tables -> blocks, unreferenced entries) folded over witness code-unit sequences; the
+    expectation is a transcription of what CPython's disassembler reports: opcode names in order (prefixes folded), each operand resolved in the
+    table CPython indexes for the opcode's category (cell variables first, then free variables), jump targets k*arg / next offset + k*arg, and
+    a block beginning exactly at offset 0 and at every jump target."""
+    from sa.feval import BlockOutcome, Obj
+    from .c03 import package_evaluator, read_units
+    rep.rule(rule, "the decoder's instruction function folded over witness code-unit sequences gives what CPython's disassembler reports", 4)
+    g = _find_instruction_fn(an)
+    deep = getattr(rep, "tier", "quick") == "thorough" and getattr(rep, "pid", "") == "C02"
+    for V in VERSIONS:
+        WV = _decoder_witnesses(V)
+        if deep:
+            # thorough tier of C02 itself: generated programs (seeded by VERIF_SEED) laid out by a reference assembler, folded on all cores
+            import concurrent.futures as cf
+            import os
+            from .c11 import reference as _ref
+            from .deep_fold import generated_programs, ref_assemble
+            for gname, gblocks, _fv in generated_programs(getattr(rep, "seed", 0), 160):
+                code_, names_, consts_ = ref_assemble(gblocks, _ref(V))
+                WV.append((gname, code_, names_, (), (), (), consts_))
+            n_w = max(1, min(16, os.cpu_count() or 1))
+            bad = []
+            with cf.ProcessPoolExecutor(max_workers=n_w) as ex:
+                for b_, gap in ex.map(_decode_chunk, [(an.prog.repo, V, WV[i::n_w]) for i in range(n_w)]):
+                    if gap:
+                        raise AnalysisError(gap)
+                    bad += b_
+        else:
+            bad = _decode_bad(an, g, V, WV)
         rep.add(rule, f"{g.qual}::witness code units [{vname(V)}]", not bad, loc(g.module, g.node),
-                f"{len(W)} witness sequences (cell / free variables, tables met out of order, unreferenced entries, relative / absolute / prefixed jumps, numeric operands): as CPython's disassembler reports them"
+                f"{len(WV)} witness sequences (cell / free variables, tables met out of order, unreferenced entries, relative / absolute / prefixed jumps, numeric operands): as CPython's disassembler reports them"
                 if not bad else bad[0] + (f" (+{len(bad) - 1} more)" if len(bad) > 1 else ""))
